@@ -130,14 +130,24 @@ def baseline(text, ops, hashseed):
     env = dict(os.environ)
     env['PYTHONHASHSEED'] = str(hashseed)
     payload = json.dumps({'text': text, 'ops': ops})
-    p = subprocess.run([sys.executable, '-W', 'ignore', '-m', 'vpx.props.c18'], input=payload, capture_output=True, text=True, env=env,
-                       cwd=core.VERIF, timeout=600)
+    try:
+        p = subprocess.run([sys.executable, '-W', 'ignore', '-m', 'vpx.props.c18'], input=payload, capture_output=True, text=True, env=env,
+                           cwd=core.VERIF, timeout=240)
+    except subprocess.TimeoutExpired:
+        raise core.Inconclusive()          # a baseline that does not finish is not a verdict about history independence
     if p.returncode != 0:
+        if 'MemoryError' in p.stderr or p.returncode < 0:
+            raise core.Inconclusive()
         raise core.HarnessError('baseline worker failed: %s' % p.stderr[-800:])
     return json.loads(p.stdout)
 
 
 def worker_main():
+    try:
+        import resource
+        resource.setrlimit(resource.RLIMIT_AS, (3 * 1024 ** 3, 3 * 1024 ** 3))    # a runaway baseline must not take the machine down
+    except Exception:
+        pass
     req = json.loads(sys.stdin.read())
     out = {}
     for op in req['ops']:
